@@ -334,7 +334,47 @@ def rule_e(ctx):
     ctx.floor(R, 1)
 
 
+def rule_f(ctx):
+    R = "C06.f"
+    ctx.rule(R, "averages and reconstructions are computed in floating point: the work arrays of the finite-volume routines (gather buffers, "
+             "reconstructed fluxes) are float arrays of their own -- a buffer that takes its dtype from the input quantity averages integer "
+             "or boolean cell data in integer arithmetic (wrap-around of sums, truncating reciprocals)")
+    m = ctx.model
+    n = 0
+    for f in [g for g in m.mod(MOD).funcs.values()] + [g for k in m.mod(MOD).classes.values() for g in k.methods.values()]:
+        params = set(f.params)
+        for c in ast.walk(f.node):
+            if isinstance(c, ast.Call) and norm(c.func) in ("np.zeros", "np.empty", "np.ones", "np.full", "np.zeros_like", "np.empty_like"):
+                dt = next((k.value for k in c.keywords if k.arg == "dtype"), None)
+                like = norm(c.func).endswith("_like")
+                if dt is None and not like:
+                    pos = 2 if norm(c.func) == "np.full" else 1
+                    dt = c.args[pos] if len(c.args) > pos else None
+                src = None
+                if dt is not None and isinstance(dt, ast.Attribute) and dt.attr == "dtype":
+                    b = dt.value
+                    while isinstance(b, (ast.Subscript, ast.Attribute)):
+                        b = b.value
+                    if isinstance(b, ast.Name) and b.id not in ("self", "grid", "np"):
+                        src = norm(dt)
+                elif like and dt is None and c.args:
+                    b = c.args[0]
+                    while isinstance(b, (ast.Subscript, ast.Attribute)):
+                        b = b.value
+                    if isinstance(b, ast.Name) and b.id in params and b.id not in ("self", "grid"):
+                        src = f"the dtype of {norm(c.args[0])}"
+                if dt is not None or like:
+                    n += 1
+                if src is not None:
+                    ctx.instance(R)
+                    ctx.ob(R, f.qname, f"`{norm(c)[:70]}` is a floating point work array", False,
+                           f"the array takes {src}: integer / boolean input is gathered and averaged in that dtype (uint8 sums wrap, reciprocals of integers truncate)", c, evidence=True)
+    ctx.instance(R, 0)
+    ctx.ob(R, MOD, f"{n} typed allocation(s) of the finite-volume module checked", True, "", None)
+
+
 def run(ctx):
+    rule_f(ctx)
     ctx.consult(MOD)
     rule_a(ctx)
     rule_b(ctx)
